@@ -339,7 +339,14 @@ func NewSugarDB(options ...func(sugarDB *SugarDB)) (*SugarDB, error) {
 				case <-ticker.C:
 					// Run key eviction for each database that has volatile keys.
 					wg := sync.WaitGroup{}
+					// Collect the database indices under the lock; the map is modified by createDatabase.
+					sugarDB.keysWithExpiry.rwMutex.RLock()
+					databases := make([]int, 0, len(sugarDB.keysWithExpiry.keys))
 					for database, _ := range sugarDB.keysWithExpiry.keys {
+						databases = append(databases, database)
+					}
+					sugarDB.keysWithExpiry.rwMutex.RUnlock()
+					for _, database := range databases {
 						wg.Add(1)
 						ctx := context.WithValue(context.Background(), "Database", database)
 						go func(ctx context.Context, wg *sync.WaitGroup) {
